@@ -863,6 +863,11 @@ def field_increments(fn, field):
     b = fn.body
     sy = Sym(fn)
     ret_defs = [d for d in b.defs().get(0, []) if d[0] == "assign"]
+    if len(ret_defs) > 1:
+        # several return sites handing back the same local (`if nothing_left { return result; } ...; result`)
+        srcs = {((d[3]["rv"]["a"].get("move") or d[3]["rv"]["a"].get("copy") or {}).get("l") if d[3]["rv"]["k"] == "use" and not (d[3]["rv"]["a"].get("move") or d[3]["rv"]["a"].get("copy") or {"pr": 1}).get("pr") else None) for d in ret_defs}
+        if len(srcs) == 1 and None not in srcs:
+            ret_defs = ret_defs[:1]
     if len(ret_defs) != 1:
         return None
     rv = ret_defs[0][3]["rv"]
